@@ -27,6 +27,7 @@ BOUNDS = {'quick': {'string_len': 8, 'decoder_depth': 5, 'window_cases': 12},
 
 ALPHA = [b'a', b'b', b'\n', b'A']
 MACRO = [b'_update60', b'\n', b'if(', b'x', b' ']
+MACRO_BYTES = set(bytes([c]) for c in b''.join(MACRO))
 WINDOW = (255 - 60) * 16
 
 
@@ -117,7 +118,10 @@ def check_text(t, res, fam, full=True):
                 res.violation('C05|codearea|read-raise|%s' % type(e).__name__,
                               'get_code_from_bytes(area, %d) raised %r' % (ver, e), case)
                 return
-            ok = (code2 == t) or (cs2 is None and code2 == t + b'\n')
+            # (get_code_from_bytes is the .p8.png reader's entry: it turns CR into a blank and supplies a final newline to
+            # raw code - normalisations that belong to C04, not to the compression)
+            t_n = t.replace(b'\r', b' ')
+            ok = (code2 == t_n) or (cs2 is None and code2 == t_n + b'\n')
             if not ok:
                 res.violation('C05|codearea|roundtrip|%s|v%d' % ('raw' if cs2 is None else 'cmp', ver),
                               'get_code_from_bytes(get_bytes_from_code(%r), version=%d) = %r' % (t[:40], ver, code2[:60]), case)
@@ -419,6 +423,7 @@ def shards(tier, seed):
     items += [('decoder', BOUNDS[tier]['decoder_depth'])]
     items += [('history', 3 if tier == 'quick' else 4)]
     items += [('nul', k, 4) for k in range(4)]
+    items += [('allbytes', k, 4) for k in range(4)]
     # every addressable offset 1..3135 from a far state: quick lengths {3, 17}, thorough all 16 lengths 2..17 -> 3..17
     items += [('far', lo, min(3136, lo + 196), tier) for lo in range(1, 3136, 196)]
     # the header's 16-bit length field: decoded lengths around 2^15 and up to 2^16-1
@@ -436,6 +441,17 @@ def run_shard(item):
     if kind == 'history':
         check_history(item[1], res)
         res.sample({'family': 'history', 'texts': HISTORY_TEXTS[:3], 'sequences': 'all of length 2..%d over 5 texts' % item[1]})
+        return res
+    if kind == 'allbytes':
+        # every byte value 0..255 (all 59 table characters, every escaped byte) as a literal: alone, doubled, tripled,
+        # between compressible text and next to each table neighbour
+        for c in range(256):
+            if c % item[2] != item[1]:
+                continue
+            b = bytes([c])
+            for t in (b, b * 2, b * 3, PAD + b, b + PAD, PAD + b + PAD[:7] + b, b'x' + b + b'=' + b + b'\n'):
+                check_text(t, res, 'allbytes')
+        res.sample({'family': 'allbytes', 'text': PAD + b'#'})
         return res
     if kind == 'nul':
         # the byte 0x00 (stored as the escape pair 00 00): every string of length <= L over {a, LF, NUL} before, after
@@ -564,6 +580,8 @@ def replay(case):
 def classify_family(t):
     if b'\x00' in t:
         return 'nul'
+    if len(t) <= 3 or (PAD in t and len(t) <= 2 * len(PAD) + 10 and not all(bytes([c]) in MACRO_BYTES for c in t.replace(PAD, b''))):
+        return 'allbytes'
     if t in truncation_texts():
         return 'trunc'
     if len(t) > 3000:
